@@ -400,6 +400,19 @@ func (t *taintCtx) secretsIn(fn *ssa.Function, v ssa.Value, ctx []*ssa.Call, dep
 			return callResult(y, 0)
 		case *ssa.Parameter:
 			pf := y.Parent()
+			// the `req interface{}` of a gRPC interceptor is every request of the API, those with passphrase
+			// fields included
+			if _, isIface := y.Type().Underlying().(*types.Interface); isIface && pf != nil {
+				for _, q := range pf.Params {
+					if pt, isP := q.Type().(*types.Pointer); isP {
+						if nt, isN := pt.Elem().(*types.Named); isN && nt.Obj().Pkg() != nil && strings.HasSuffix(nt.Obj().Pkg().Path(), "google.golang.org/grpc") &&
+							(nt.Obj().Name() == "UnaryServerInfo" || nt.Obj().Name() == "StreamServerInfo") {
+							add("the request parameter of a gRPC interceptor (every API request, including those that carry passphrases)", y.Pos())
+							return true
+						}
+					}
+				}
+			}
 			if !carriesBytes(y.Type()) {
 				return true
 			}
@@ -862,7 +875,7 @@ func c04Enc(c *Ctx, t *taintCtx, fns []*ssa.Function) {
 	}
 }
 
-// zeroes: fn (or a callee in the keystore package) calls Zero() on its parameter idx outside a defer.
+// zeroes: fn (or a callee in the keystore package) calls Zero() on its parameter idx (directly or deferred).
 func zeroesParam(c *Ctx, fn *ssa.Function, idx int, depth int) bool {
 	if fn == nil || len(fn.Blocks) == 0 || idx >= len(fn.Params) || depth > 4 {
 		return false
@@ -870,6 +883,10 @@ func zeroesParam(c *Ctx, fn *ssa.Function, idx int, depth int) bool {
 	p := fn.Params[idx]
 	found := false
 	allInstrs(fn, func(in ssa.Instruction) {
+		// a deferred Zero() of the parameter runs when fn returns: for the caller the key is zeroed all the same
+		if d, isD := in.(*ssa.Defer); isD && callName(d) == "Zero" && callRecv(d) != nil && backSlice(callRecv(d)).has(p) {
+			found = true
+		}
 		cl, ok := in.(*ssa.Call)
 		if !ok {
 			return
